@@ -33,6 +33,9 @@ pub struct CaseStats {
     pub max_nodes: usize,
     pub level_ne_var: bool,
     pub excluded: u64,
+    pub digest: u64,
+    pub binpairs: u64,
+    pub subst_alt: u64,
 }
 
 impl From<&Stats> for CaseStats {
@@ -59,6 +62,9 @@ impl From<&Stats> for CaseStats {
             max_nodes: s.max_nodes,
             level_ne_var: s.level_ne_var,
             excluded: s.excluded,
+            digest: s.digest,
+            binpairs: s.binpairs,
+            subst_alt: s.subst_alt,
         }
     }
 }
@@ -144,6 +150,9 @@ pub fn hist_campaign<K: BoolKind>(job: &HistJob, rep: &mut Report, nontrivial: &
                 }
                 let v = serde_json::to_value(s).unwrap();
                 for (k, x) in v.as_object().unwrap() {
+                    if k == "digest" {
+                        continue;
+                    }
                     let add = x.as_u64().unwrap_or_else(|| if x.as_bool() == Some(true) { 1 } else { 0 });
                     *agg.entry(format!("{}.{k}", K::NAME)).or_insert(0) += add;
                 }
